@@ -3460,10 +3460,14 @@ impl WasmGenerator {
                         let param_types = Self::indirect_call_param_types(args);
                         let type_idx = self.get_or_create_call_type(param_types, return_types);
 
+                        // The callee may be a tuple/record projection used directly
+                        // (`(t.1)(x)`, `r.f(x)`): such a register holds the ADDRESS of the
+                        // element, so the callable is loaded through it (emit_scalar_operand).
+                        //
                         // TODO: This branch is a compatibility workaround for the current
                         // callable encoding. We should decide direct-function-ref vs closure
                         // statically during lowering, not by inspecting the runtime value.
-                        self.emit_value_load_typed(closure_ptr, ValType::I64, func);
+                        self.emit_scalar_operand(closure_ptr, ValType::I64, func);
                         func.instruction(&W::I64Const(DIRECT_FUNCTION_REF_MAX_EXCLUSIVE));
                         func.instruction(&W::I64LtU);
                         func.instruction(&W::If(block_type));
@@ -3473,7 +3477,7 @@ impl WasmGenerator {
                         // They are not heap/linear-memory closures, so call them directly
                         // without switching closure state.
                         self.emit_call_args_word(args, func);
-                        self.emit_value_load_typed(closure_ptr, ValType::I64, func);
+                        self.emit_scalar_operand(closure_ptr, ValType::I64, func);
                         func.instruction(&W::I32WrapI64);
                         func.instruction(&W::CallIndirect {
                             type_index: type_idx,
@@ -3505,14 +3509,14 @@ impl WasmGenerator {
 
                         // Set closure_self_ptr to the new closure
                         func.instruction(&W::I32Const(0)); // CLOSURE_SELF_PTR_ADDR
-                        self.emit_value_load(closure_ptr, func);
+                        self.emit_scalar_operand(closure_ptr, ValType::I64, func);
                         func.instruction(&W::I64Store(memarg));
 
                         // Push flattened i64 words matching indirect-call adapter ABI.
                         self.emit_call_args_word(args, func);
 
                         // Load function table index from closure[0]
-                        self.emit_value_load(closure_ptr, func);
+                        self.emit_scalar_operand(closure_ptr, ValType::I64, func);
                         func.instruction(&W::I32WrapI64);
                         func.instruction(&W::I64Load(memarg));
                         func.instruction(&W::I32WrapI64); // table index must be i32
@@ -4782,7 +4786,7 @@ impl WasmGenerator {
     ) {
         use wasm_encoder::Instruction as W;
         // Push closure address (i64) and state size (i64)
-        self.emit_value_load(closure_ptr, func);
+        self.emit_scalar_operand(closure_ptr, ValType::I64, func);
         func.instruction(&W::I64Const(state_size as i64));
         func.instruction(&W::Call(self.rt.closure_state_push));
     }
